@@ -130,7 +130,12 @@ impl Backend {
                     let def_line = Self::internal_line_to_lsp(def.line);
                     let def_location = Location {
                         uri: def_uri,
-                        range: Self::create_point_range(def_line, 0),
+                        range: Self::create_range(
+                            def_line,
+                            def.start_char as u32,
+                            def_line,
+                            def.end_char as u32,
+                        ),
                     };
                     locations.push(def_location);
                 }
